@@ -411,6 +411,8 @@ class Exec:
         return r
 
     def is_(self, a, b):
+        if a is b:
+            return True
         if b is None or a is None:
             x = a if b is None else b
             return self.isnone(x)
@@ -690,6 +692,11 @@ class Exec:
                 if isinstance(n, ast.FunctionDef):
                     return Closure(n, Env(), n.name, cls=c, module=ci.module)
                 if isinstance(n, ast.ClassDef):
+                    for b in n.bases:
+                        bn = ast.unparse(b)
+                        if bn in HIER or bn == 'BaseException':
+                            HIER.setdefault(n.name, bn)
+                            return ClsTok(n.name)
                     return ClassRef(n.name)
                 key = ('classattr', c, name)
                 if key not in self.__dict__.setdefault('_classattr', {}):
@@ -1123,7 +1130,7 @@ class Exec:
         # trusted no-ops: logging
         if isinstance(f, ast.Attribute) and isinstance(f.value, ast.Name) and f.value.id in self.drop_calls and not env.has(f.value.id):
             self.walrus_only(e, env)
-            return None
+            return 100 if f.attr == 'getEffectiveLevel' else None
         if isinstance(f, ast.Name) and f.id == 'once' and e.args and isinstance(e.args[0], ast.Attribute) \
                 and isinstance(e.args[0].value, ast.Name) and e.args[0].value.id in self.drop_calls:
             self.walrus_only(e, env)
@@ -1234,12 +1241,15 @@ class Exec:
         self.call_depth += 1
         if self.call_depth > 60:
             raise Unsupported('call depth exceeded (recursion needs a contract)')
+        stack = self.__dict__.setdefault('fn_stack', [])
+        stack.append(c.name)
         try:
             self.block(node.body, env)
         except Ret as r:
             return r.v
         finally:
             self.call_depth -= 1
+            stack.pop()
         return None
 
     # ------------------------------------------------------------------ statements
